@@ -36,8 +36,8 @@ func c09StickySub() *engine.Sub {
 		return containsStr(api.Formats, a.Format) && (a.Kind == "ctn" || containsStr(api.Kinds, a.Kind))
 	}
 	return &engine.Sub{
-		Name: "sources-that-keep-failing",
-		Rule: fmt.Sprintf("every stream entry point (%d) on every small matching artefact, fed by a reader that delivers the first k bytes and from then on answers EVERY Read with the same error - EAGAIN, EINTR, a passed deadline, a net-style timeout (errors that call themselves temporary), ErrNoProgress, ErrShortBuffer - for every k in [0, len): the call returns; a decoder still reading after 10000 consecutive failures never returns; non-trivial = all", len(apis)),
+		Name:  "sources-that-keep-failing",
+		Rule:  fmt.Sprintf("every stream entry point (%d) on every small matching artefact, fed by a reader that delivers the first k bytes and from then on answers EVERY Read with the same error - EAGAIN, EINTR, a passed deadline, a net-style timeout (errors that call themselves temporary), ErrNoProgress, ErrShortBuffer - for every k in [0, len): the call returns; a decoder still reading after 10000 consecutive failures never returns; non-trivial = all", len(apis)),
 		Bound: func(string) string { return "stream entry points x small artefacts x 6 errors x every offset" },
 		Setup: setup,
 		Gen: func(tier string, emit func(any) bool) {
